@@ -43,6 +43,9 @@ ASSUMPTIONS = [
     "WKT / network geometry exact (str(float) round-trips)",
     "ids of tracks, nodes and edges are non-empty strings over [A-Za-z0-9_.-]",
     "WKT export is defined for ENU and geographic tracks only (Track.toWKT has no ECEF branch; 'planimetric' coordinates)",
+    "the number of observations of a track is part of the domain: up to 65537 (quick: ~4100); large tracks are held in the case as "
+    "a short description (size, integer seed, family, first stamp, step) and expanded by a fixed integer hash, every point through "
+    "the same decoders as the small tracks; the comparison is still against these numbers, observation by observation",
     "a track / network object may be exported / written several times and edited in place in between (position.setX/setY, "
     "Track.setObs, obs.position replaced, Track.addObs, Track.translate / scale on ENU data, moving a node = both geometry ends "
     "and the Node); every export is judged against the coordinates the object holds at that time, recomputed from the case "
@@ -1124,6 +1127,168 @@ def body_seq(case):
     return {"nt": nt, "cls": sorted(cls)}
 
 
+# =================================================================================================
+# (vi) large tracks: the number of observations is a generated dimension (sizes around powers of ten / two and
+# typical buffer sizes).  The case holds a short description of the track (plain numbers); points and stamps
+# are a pure function of it, so the case is still the witness and the oracle still compares with the case data.
+SIZES_QUICK = [999, 1000, 1001, 1024, 2000, 2001, 2500, 4097]
+SIZES_THOROUGH = [99, 100, 101, 255, 256, 257, 511, 512, 513, 999, 1000, 1001, 1023, 1024, 1025, 2000, 2001, 2047, 2048, 2049,
+                  2500, 3000, 3001, 4095, 4096, 4097, 5000, 8191, 8192, 8193, 9999, 10000, 10001, 16384, 16385, 20001, 65537]
+_BIG_T0 = [gen.ms_of_fields(2021, 12, 31, 23, 30, 0, 0), gen.ms_of_fields(2020, 2, 29, 23, 50, 0, 500), 0,
+           gen.ms_of_fields(2019, 6, 30, 22, 0, 0, 999), gen.ms_of_fields(2099, 12, 31, 22, 0, 0, 0),
+           gen.ms_of_fields(2000, 1, 1, 0, 0, 0, 0)]
+_BIG_DT = [1000, 1, 250, 60000, 999, gen.DAY_MS]
+
+
+def _hh(seed, i):
+    return ((seed * 2654435761 + (i + 1) * 2246822519) & 0xFFFFFFFFFFFF) >> 11
+
+
+def _uu(h):
+    return ((h % 2000001) - 1000000) / 1e6
+
+
+def _expand_track(srid, d):
+    """(pts, times) of the described track.  mode 0: a regular trajectory (constant steps, heights cycling); mode 1: every
+    point decoded like the generated fixes of the small tracks (lattice / millimetre / raw / >= 1e7 / ties / constants)."""
+    n, seed, mode = int(d["n"]), int(d.get("seed", 0)), d.get("mode", 0)
+    t0, dt = int(d.get("t0", 0)), int(d.get("dt", 1000))
+    times = [min(max(t0 + i * dt, 0), gen.MAX_MS) for i in range(n)]
+    pts = []
+    if mode == 0:
+        k = seed % 7
+        if srid == "GEO":
+            x0, y0, dx, dy = [2.3488, -179.5, 0.0, 120.25][seed % 4], [48.858222, -33.5, 0.0, 60.125][(seed // 4) % 4], 1e-5 * (k + 1), -7e-6 * (k + 1)
+            for i in range(n):
+                pts.append([min(max(x0 + i * dx, -180.0), 180.0), min(max(y0 + i * dy, -90.0), 90.0), 35.0 + (i % 97) * 0.125])
+        elif srid == "ECEF":
+            for i in range(n):
+                pts.append([4201575.762 + i * 0.25 * (k + 1), 189856.033 - i * 0.125, 4779064.567 + (i % 97) * 0.001])
+        else:
+            x0, y0 = [0.0, -12345678.5, 651234.25, 1e7][seed % 4], [0.0, 6861234.75, -0.5, -1e8][(seed // 4) % 4]
+            for i in range(n):
+                pts.append([x0 + i * 0.25 * (k + 1), y0 - i * 0.125, 10.0 + (i % 97) * 0.001])
+    else:
+        for i in range(n):
+            h = _hh(seed, 4 * i)
+            pts.append(_dec_point(srid, h % 512, _uu(_hh(seed, 4 * i + 1)), _uu(_hh(seed, 4 * i + 2)), _uu(_hh(seed, 4 * i + 3))))
+    if d.get("flat"):                                   # ENU through GPX: the recorded height defect has its own sub-check
+        pts = [[q[0], q[1], 0.0] for q in pts]
+    return pts, times
+
+
+def _size_cls(n):
+    out = []
+    for lim in (100, 1000, 2000, 5000, 10000):
+        if n < lim:
+            out.append("size<%d" % lim)
+            break
+    else:
+        out.append("size>=10000")
+    if n > 1000:
+        out.append("size>1000")
+    for b in (1000, 1024, 2000, 2048, 4096, 8192, 10000, 16384, 65536):
+        if n == b:
+            out.append("size==round-number")
+        elif n == b + 1:
+            out.append("size==round-number+1")
+        elif n == b - 1:
+            out.append("size==round-number-1")
+    return out
+
+
+def body_large(case):
+    kind, d = case["kind"], case["track"]
+    n = int(d["n"])
+    if n < 1:
+        return {"undef": True}
+    if kind == "csv":
+        cfg = case["cfg"]
+        pts, times = _expand_track(cfg["srid"], d)
+        r = body_csv(dict(cfg, pts=pts, t=times))
+        keep = [c for c in r["cls"] if c.startswith(("srid-", "cols-", "perm-", "api-", "h-", "with-af"))]
+        id_t = cfg["ids"][3]
+        k = 2 + (cfg["ids"][2] >= 0) + (id_t >= 0)
+        keep.append("time-column-absent" if id_t < 0 else ("time-column-last" if id_t == k - 1 else (
+            "time-column-first" if id_t == 0 else "time-column-inside")))
+    elif kind == "gpx":
+        cfg = case["cfg"]
+        srid = cfg["srid"]
+        pts, times = _expand_track(srid, dict(d, flat=(srid == "ENU")))
+        tracks = [{"tid": "big", "pts": pts, "t": times}]
+        if cfg.get("second"):                           # a second, small track in the same collection / file
+            p2, t2 = _expand_track(srid, dict(d, n=int(cfg["second"]), seed=int(d.get("seed", 0)) + 1, flat=(srid == "ENU")))
+            tracks.insert(int(cfg.get("second_first", 0)) and 0 or 1, {"tid": "small", "pts": p2, "t": t2})
+        inner = {"srid": srid, "tracks": tracks, "one_file": bool(cfg["one_file"]), "api": cfg["api"], "af": bool(cfg.get("af")),
+                 "single": bool(cfg.get("single")) and len(tracks) == 1}
+        r = body_gpx(inner)
+        keep = [c for c in r["cls"] if c.startswith(("srid-", "one-file", "file-per", "tracks-", "api-"))]
+    elif kind == "wkt":
+        cfg = case["cfg"]
+        pts, _ = _expand_track(cfg["srid"], d)
+        r = body_wkt({"srid": cfg["srid"], "pts": pts, "edits": cfg.get("edits") or []})
+        keep = [c for c in r["cls"] if c.startswith(("srid-", "exports-", "edit-"))]
+    else:
+        return {"undef": True}
+    return {"nt": n >= 1000, "cls": ["large-" + kind] + _size_cls(n) + keep + ["track-" + ("regular" if not d.get("mode") else "awkward-values")]}
+
+
+_BIG_LAYOUTS = [[0, 1, 2, 3], [1, 2, 3, 0], [0, 1, 2, -1], [1, 0, -1, 2], [0, 2, 3, 1], [0, 1, -1, -1]]   # E, N, U, T column ids
+
+
+def enum_large(tier):
+    sizes = SIZES_QUICK if tier == "quick" else SIZES_THOROUGH
+    k = 0
+    for n in sizes:
+        for lay in _BIG_LAYOUTS:
+            for srid in _SRIDS3:
+                k += 1
+                with_t = lay[3] >= 0
+                tfmt = TIME_FMTS[k % len(TIME_FMTS)]
+                seps = _allowed_seps(with_t, tfmt)
+                cfg = {"srid": srid, "srid_name": srid, "ids": lay, "sep": seps[k % len(seps)], "h": (k // 2) % 2, "tfmt": tfmt,
+                       "api": ["file", "csv"][k % 2], "afs": 1 if k % 5 == 0 else 0}
+                yield {"kind": "csv", "cfg": cfg, "track": {"n": n, "seed": k, "mode": 1 if k % 3 == 0 else 0,
+                                                             "t0": _BIG_T0[k % len(_BIG_T0)], "dt": _BIG_DT[k % len(_BIG_DT)]}}
+        k += 1
+        yield {"kind": "csv", "cfg": {"srid": "ENU", "srid_name": "ENU", "ids": [0, 1, -1, -1], "sep": ",", "h": 0, "tfmt": T_DEFAULT,
+                                      "api": "default", "afs": 0},
+               "track": {"n": n, "seed": k, "mode": 0, "t0": _BIG_T0[0], "dt": 1000}}
+        for cfg in ({"srid": "GEO", "one_file": True, "api": "gpx", "single": True},
+                    {"srid": "GEO", "one_file": False, "api": "file", "second": 3, "second_first": k % 2},
+                    {"srid": "ENU", "one_file": True, "api": "file", "second": 2, "second_first": (k + 1) % 2, "af": True}):
+            k += 1
+            yield {"kind": "gpx", "cfg": cfg, "track": {"n": n, "seed": k, "mode": k % 2, "t0": _BIG_T0[k % len(_BIG_T0)],
+                                                         "dt": _BIG_DT[k % 5]}}
+        for srid in ("ENU", "GEO"):
+            k += 1
+            edits = [] if k % 2 else [{"op": "add", "xy": [1.5, -2.25]}, {"op": "add", "xy": [3.0, 4.0]}]
+            yield {"kind": "wkt", "cfg": {"srid": srid, "edits": edits}, "track": {"n": n, "seed": k, "mode": k % 3 == 0 and 1 or 0}}
+
+
+def strat_large():
+    r = lambda m: st.sampled_from(range(m))
+    size = st.tuples(st.sampled_from(SIZES_THOROUGH[9:27]), st.sampled_from([0, 0, 1, -1, 2, 7, 100])).map(lambda t: t[0] + t[1])
+    track = st.tuples(size, st.integers(0, 2 ** 31), r(2), r(len(_BIG_T0)), r(len(_BIG_DT))).map(
+        lambda t: {"n": t[0], "seed": t[1], "mode": t[2], "t0": _BIG_T0[t[3]], "dt": _BIG_DT[t[4]]})
+
+    def csv_cfg(t):
+        c = _mk_csv(t)
+        del c["pts"], c["t"]
+        return c
+    csv = st.tuples(_SALT, r(3), r(3), _DAY, st.just(()), r(2), r(2), r(24), r(len(SEPS)), r(2), r(len(TIME_FMTS)),
+                    r(len(_APIS)), r(len(_AFS))).map(csv_cfg).map(lambda c: ("csv", c))
+    gpx = st.tuples(r(2), r(2), r(2), st.sampled_from([0, 0, 1, 5]), r(2), r(2), r(2)).map(
+        lambda t: ("gpx", {"srid": ["GEO", "ENU"][t[0]], "one_file": bool(t[1]), "api": ["file", "gpx"][t[2]], "second": t[3],
+                           "second_first": t[4], "single": bool(t[5]), "af": bool(t[6])}))
+    wkt = st.tuples(r(2), st.lists(st.tuples(st.sampled_from(["add", "add", "setxy", "none"]), _VERTEX), min_size=0, max_size=2)).map(
+        lambda t: ("wkt", {"srid": ["ENU", "GEO"][t[0]],
+                           "edits": [({"op": "none"} if op == "none" else dict({"op": op, "xy": _dec_vertex(["ENU", "GEO"][t[0]], 0, 0, v)},
+                                                                                **({"i": 0} if op == "setxy" else {})))
+                                     for op, v in t[1]]}))
+    return st.tuples(st.one_of(csv, csv, csv, csv, gpx, wkt), track).map(lambda t: {"kind": t[0][0], "cfg": t[0][1], "track": t[1]})
+
+
 RULE = ("csv: Hypothesis over (srid ENU/GEO/ECEF, 1..8 fixes, with/without U and T, every permutation of the column ids, 6 separators "
         "incl. a two-character one, h 0/1, 4 time formats, reader entry point readFromFile/readFromCsv, writer called with ids or with "
         "its defaults, 0..2 extra feature columns); csv_configs: the complete product srid x column layout (38 layouts) x separator x h "
@@ -1134,6 +1299,12 @@ RULE = ("csv: Hypothesis over (srid ENU/GEO/ECEF, 1..8 fixes, with/without U and
         "write (same or new file) + read judged against the edited data; wkt: toWKT -> parseWkt, then 0..3 in-place edits of the SAME "
         "track (setX/setY, setObs, position replaced, translate, scale, addObs, nothing) each followed by another export + parse judged "
         "against the edited coordinates; the network / wkt steps of a sequence carry such edit histories too. "
+        "large_tracks: tracks of 999 / 1000 / 1001 / 1024 / 2000 / 2001 / 2500 / 4097 observations (thorough: 37 sizes 99..65537 around "
+        "powers of ten and two) x CSV in 6 column layouts (time last / first / inside / absent, with and without U) x 3 srids with "
+        "separator, header flag, time format, entry point and feature column rotating, the writer's defaults, GPX (one file / file per "
+        "track next to a small second track, GEO / ENU with heights 0) and WKT (also re-exported after addObs), enumerated; plus random "
+        "sizes (18 anchors 999..4097 + -1..100) with a random CSV / GPX / WKT configuration; regular trajectories and awkward values, "
+        "stamps stepping by 1 ms .. 1 day across month / year ends; non-trivial when the track has >= 1000 observations. "
         "Coordinates: one float in [-1,1] per coordinate decoded per point as 1/8 lattice, millimetre decimals, raw double, |v| >= 1e7, "
         "rounding tie in the first dropped decimal, or an awkward constant; stamps: month/year-end days, first/last second and ms. "
         "Non-trivial: CSV with a non-identity column permutation or separator != ',' or a stamp within 1 s of a month/year end; GPX with "
@@ -1147,12 +1318,14 @@ RULE = ("csv: Hypothesis over (srid ENU/GEO/ECEF, 1..8 fixes, with/without U and
 FUZZ = {'csv': 8000, 'wkt': 6000}
 
 SUBCHECKS = [
-    SubCheck("csv", body_csv, strategy=strat_csv, quick=6000, thorough=120000, qshards=8),
+    SubCheck("csv", body_csv, strategy=strat_csv, quick=4000, thorough=120000, qshards=8),
     SubCheck("csv_configs", body_csv, enum=enum_csv, rule="complete srid x layout x separator x header x time-format product",
              qshards=4),
     SubCheck("gpx", body_gpx, strategy=strat_gpx, quick=2400, thorough=48000),
-    SubCheck("network", body_net, strategy=strat_net, quick=2400, thorough=48000),
+    SubCheck("network", body_net, strategy=strat_net, quick=1800, thorough=48000, qshards=6),
     SubCheck("wkt", body_wkt, strategy=strat_wkt, quick=2400, thorough=48000),
-    SubCheck("sequences", body_seq, strategy=strat_seq, quick=2400, thorough=48000,
+    SubCheck("large_tracks", body_large, enum=enum_large, strategy=strat_large, quick=120, thorough=2400, qshards=6,
+             rule="tracks of 999..4097 (thorough 99..65537) observations through CSV (6 column layouts x 3 srids), GPX and WKT"),
+    SubCheck("sequences", body_seq, strategy=strat_seq, quick=1600, thorough=48000, qshards=8,
              rule="2..5 round trips in one process without resetting ObsTime's class-level formats"),
 ]
